@@ -47,6 +47,9 @@ func (a dsAddr) Network() string { return "fake" }
 
 // dsAddrName is the inverse of dsRealAddr on rendered addresses (the op lines and the model speak in names).
 func dsAddrName(rendered string) string {
+	if n, ok := dsBoundNames[rendered]; ok {
+		return n
+	}
 	for _, n := range []string{"a1", "a2", "a3", "a5", "a6"} {
 		if dsRealAddr(n).String() == rendered {
 			return n
@@ -97,6 +100,9 @@ func dsBind(name string, a net.Addr) {
 // resolver host), a3 is another host, a5 an IPv6 link-local peer that differs
 // from a6 only in the zone; anything else stays an opaque fake address.
 func dsRealAddr(name string) net.Addr {
+	if a, ok := dsBoundAddrs[name]; ok {
+		return a // net lines: the local address of the socket that plays the name
+	}
 	switch name {
 	case "a1":
 		return &net.UDPAddr{IP: net.IPv4(198, 51, 100, 7), Port: 40000}
@@ -121,16 +127,12 @@ func dsRealAddr(name string) net.Addr {
 }
 func (a dsAddr) String() string  { return string(a) }
 
-// dsComm is an in-memory ServerCommunicator: it only records the handler the listener registers.
-type dsComm struct {
-	closed  bool
-	handler sadns.OnMessage
-}
+// dsComm (c12_handler.go) is the ServerCommunicator of a line: a wrapper around the REAL NetConnectionServerCommunicator,
+// whose registered handler every message passes through.
 
-func (c *dsComm) Close() error                         { c.closed = true; return nil }
-func (c *dsComm) Closed() bool                         { return c.closed }
-func (c *dsComm) RegisterAccept(f sadns.OnMessage)     { c.handler = f }
-func (c *dsComm) LocalAddr() net.Addr                  { return dsAddr("server") }
+// dsNetwork: "" = the handler is called directly with a fake dns.ResponseWriter; "udp" / "tcp" = through a real socket
+// (set by dsExec for the line that is running)
+var dsNetwork = ""
 
 func dsEncoder(code byte) enc.Encoder {
 	e, err := enc.FromCode(code)
@@ -151,6 +153,7 @@ type dsWorld struct {
 	accepted []net.Conn
 	opens    int // successful version answers so far
 	ledger   map[net.Conn]map[uint16][]byte
+	tsigSeen bool // the last answer written by the handler carried a TSIG record
 }
 
 // drainAccept takes every waiting session out of the real Accept()
@@ -205,7 +208,8 @@ func (w *dsWorld) liveIds() map[int]int {
 
 func dsNewWorld(dom string) *dsWorld {
 	dsResetBindings()
-	w := &dsWorld{dom: dom, comm: &dsComm{}, ledger: map[net.Conn]map[uint16][]byte{}}
+	dsNetReset()
+	w := &dsWorld{dom: dom, comm: dsNewComm(dsNetwork), ledger: map[net.Conn]map[uint16][]byte{}}
 	w.srv = sadns.NewServerDnsListener(dom, w.comm)
 	w.limit = w.srv.VerifTableSize()
 	return w
@@ -497,7 +501,7 @@ func (w *dsWorld) runBatch(ops []string) (answers []string, mons []string, ok bo
 				}
 				return
 			}
-			it.resp, it.err = w.comm.handler(it.q, it.real)
+			it.resp, it.err = w.deliver(it.q, it.real, it.from, 'T')
 		}(it)
 	}
 	ready.Wait()
@@ -731,8 +735,15 @@ func dsErrName(e error) string {
 
 // dsClassify renders the answer of the server canonically, decoding it with the real client decoder.
 func dsClassify(dom string, resp *dns.Msg, err error, hint byte) (out string) {
-	if err != nil {
-		return "DROP"
+	switch {
+	case err == dsErrIgnored:
+		return "IGN" // onMessage returned (nil, err); the handler sent nothing
+	case err == dsErrLost:
+		return "LOST"
+	case err == dsErrHung:
+		return "HUNG"
+	case err != nil:
+		return "DROP" // onMessage returned (msg, err); the handler sent nothing
 	}
 	if resp == nil {
 		return "NIL"
@@ -971,7 +982,7 @@ func dsRun(line string, rec *dsRecord) (result, monitor string, nMsgs int, class
 						}
 					}
 				}()
-				resp, herr = w.comm.handler(q, dsRealAddr(f[1]))
+				resp, herr = w.deliver(q, dsRealAddr(f[1]), f[1], f[4][0])
 			}()
 			alloc1 := dsAllocated()
 			if panicked != "" {
